@@ -211,3 +211,209 @@ Proof.
     apply Z.leb_le in Hr1, Hr2. lia. }
   rewrite !np_idx_ok_nonneg, !szw_nonneg by auto. rewrite Hr1, Hr2, Hsz, Hne. cbn. now rewrite HN.
 Qed.
+
+(* ======================================================================================== *)
+(* shared request shapes                                                                      *)
+(* ======================================================================================== *)
+Theorem same_shape_decides s u : guard_same_shape s u = decide (pre_same_shape s u).
+Proof. reflexivity. Qed.
+
+(* "sorted(order) == range(N)" is exactly "order is a permutation of the modes" *)
+Lemma nodupb_spec l : nodupb l = true <-> NoDup l.
+Proof.
+  induction l as [|x l IH]; cbn.
+  - split; [constructor|reflexivity].
+  - rewrite andb_true_iff, negb_true_iff, IH. split.
+    + intros [Hm Hn]. constructor; auto. intros Hin. apply zmem_spec in Hin. congruence.
+    + intros H. inversion H; subst. split; auto. destruct (zmem x l) eqn:E; [|reflexivity].
+      apply zmem_spec in E. contradiction.
+Qed.
+
+Lemma np_arange_NoDup a b : NoDup (np_arange a b).
+Proof.
+  unfold np_arange. apply FinFun.Injective_map_NoDup; [|apply seq_NoDup].
+  intros x y H. lia.
+Qed.
+
+Lemma np_arange_length a b : zlen (np_arange a b) = Z.max 0 (b - a).
+Proof. unfold np_arange, zlen. rewrite map_length, seq_length. lia. Qed.
+
+Lemma sorted_le_of_lt l : Sorted.StronglySorted Z.lt l -> Sorted.Sorted Z.le l.
+Proof. apply sorted_lt_le. Qed.
+
+Lemma is_permb_Permutation N o : 0 <= N -> is_permb N o = true -> Permutation o (np_arange 0 N).
+Proof.
+  intros HN H. unfold is_permb, modes_ok in H. apply andb_true_iff in H as [Hl H]. apply andb_true_iff in H as [Hr Hd].
+  apply Z.eqb_eq in Hl. apply nodupb_spec in Hd. rewrite forallb_forall in Hr.
+  apply NoDup_Permutation_bis; auto.
+  - unfold zlen in Hl. pose proof (np_arange_length 0 N) as L. unfold zlen in L. lia.
+  - intros x Hx. apply in_np_arange. specialize (Hr x Hx). unfold in_range in Hr.
+    apply andb_true_iff in Hr as [A B]. apply Z.leb_le in A. apply Z.ltb_lt in B. lia.
+Qed.
+
+Lemma Permutation_is_permb N o : 0 <= N -> Permutation o (np_arange 0 N) -> is_permb N o = true.
+Proof.
+  intros HN H. unfold is_permb, modes_ok. rewrite !andb_true_iff. repeat split.
+  - apply Z.eqb_eq. unfold zlen. rewrite (Permutation_length H). pose proof (np_arange_length 0 N) as L. unfold zlen in L. lia.
+  - apply forallb_forall. intros x Hx. apply (Permutation_in _ H) in Hx. apply in_np_arange in Hx.
+    unfold in_range. apply andb_true_iff. split; [apply Z.leb_le|apply Z.ltb_lt]; lia.
+  - apply nodupb_spec. apply (Permutation_NoDup (Permutation_sym H)). apply np_arange_NoDup.
+Qed.
+
+Lemma sorted_perm_unique l l' :
+  Sorted.StronglySorted Z.le l -> Sorted.StronglySorted Z.le l' -> Permutation l l' -> l = l'.
+Proof.
+  revert l'. induction l as [|x t IH]; intros l' Hs Hs' Hp.
+  - apply Permutation_nil in Hp. now subst.
+  - destruct l' as [|y t']; [apply Permutation_sym, Permutation_nil in Hp; discriminate|].
+    inversion Hs as [|? ? Hst Hx]; subst. inversion Hs' as [|? ? Hst' Hy]; subst.
+    rewrite Forall_forall in Hx, Hy.
+    assert (x = y).
+    { assert (In x (y :: t')) as [E|Hin] by (apply (Permutation_in _ Hp); now left); [now subst|].
+      assert (In y (x :: t)) as [E|Hin'] by (apply (Permutation_in _ (Permutation_sym Hp)); now left); [now subst|].
+      specialize (Hx y Hin'). specialize (Hy x Hin). lia. }
+    subst. f_equal. apply IH; auto. eapply Permutation_cons_inv; eauto.
+Qed.
+
+Lemma np_sort_perm_eq l l' : Permutation l l' -> np_sort l = np_sort l'.
+Proof.
+  intros H. apply sorted_perm_unique.
+  - apply Sorted.Sorted_StronglySorted; [intros a b c; lia|apply np_sort_sorted].
+  - apply Sorted.Sorted_StronglySorted; [intros a b c; lia|apply np_sort_sorted].
+  - eapply Permutation_trans; [apply np_sort_perm|]. eapply Permutation_trans; [exact H|]. symmetry. apply np_sort_perm.
+Qed.
+
+Theorem sorted_perm_decides s order : guard_sorted_perm s order = decide (pre_perm s order).
+Proof.
+  apply decide_by. unfold guard_sorted_perm, pre_perm. okb.
+  assert (HN : 0 <= ndim s) by (unfold ndim, zlen; lia).
+  destruct (shape_eqb (np_sort order) (np_arange 0 (ndim s))) eqn:E.
+  - symmetry. apply shape_eqb_eq in E. apply Permutation_is_permb; auto. rewrite <- E. symmetry. apply np_sort_perm.
+  - symmetry. destruct (is_permb (ndim s) order) eqn:P; [|reflexivity]. exfalso.
+    apply is_permb_Permutation in P; auto.
+    assert (np_sort order = np_arange 0 (ndim s)).
+    { rewrite <- (np_sort_id (np_arange 0 (ndim s))) by (apply sorted_lt_le, np_arange_sorted).
+      apply np_sort_perm_eq. exact P. }
+    rewrite H, shape_eqb_refl in E. discriminate.
+Qed.
+
+Lemma sorted_perm_bool N o : 0 <= N -> shape_eqb (np_sort o) (np_arange 0 N) = is_permb N o.
+Proof.
+  intros HN. pose proof (sorted_perm_decides (repeat 0 (Z.to_nat N)) o) as H.
+  unfold guard_sorted_perm, pre_perm, ndim, zlen in H. rewrite repeat_length, Z2Nat.id in H by lia.
+  apply (f_equal is_ok) in H. now rewrite is_ok_chk, is_ok_decide in H.
+Qed.
+
+Lemma forallb_is_ok_chk {A} (f : A -> bool) l : forallb (fun x => is_ok (chk (f x))) l = forallb f l.
+Proof. apply forallb_ext_in. intros x _. apply is_ok_chk. Qed.
+
+(* ---- sptensor ---- *)
+Definition sptensor_innerprod_stmt : Prop :=
+  forall s e u, guard_sptensor_innerprod s e u = decide (pre_sptensor_innerprod s e u).
+Theorem sptensor_innerprod_refuted : ~ sptensor_innerprod_stmt.
+Proof. intros H. specialize (H [2; 3] true [3; 2]). vm_compute in H. discriminate. Qed.
+Theorem sptensor_innerprod_partial s u : guard_sptensor_innerprod s false u = decide (pre_sptensor_innerprod s false u).
+Proof. reflexivity. Qed.
+
+(* ---- ktensor ---- *)
+Theorem ktensor_ctor_decides ms w : guard_ktensor_ctor ms w = decide (pre_ktensor_ctor ms w).
+Proof. apply decide_by. unfold guard_ktensor_ctor, pre_ktensor_ctor. destruct w; okb; [reflexivity|]. cbn. now rewrite andb_true_r. Qed.
+
+Definition ktensor_arrange_stmt : Prop := forall R p, guard_ktensor_arrange R p = decide (pre_ktensor_arrange R p).
+Theorem ktensor_arrange_refuted : ~ ktensor_arrange_stmt.
+Proof. intros H. specialize (H 2 [0; 0]). vm_compute in H. discriminate. Qed.
+Theorem ktensor_arrange_partial R p : (forall x, In x p -> 0 <= x) -> nodupb p = true ->
+  guard_ktensor_arrange R p = decide (pre_ktensor_arrange R p).
+Proof.
+  intros Hnn Hd. apply decide_by. unfold guard_ktensor_arrange, pre_ktensor_arrange, is_permb, modes_ok. okb.
+  rewrite Hd, andb_true_r. f_equal. apply forallb_ext_in. intros x Hx. apply np_idx_ok_nonneg; auto.
+Qed.
+
+Theorem ktensor_extract_decides R idx : guard_ktensor_extract R idx = decide (pre_ktensor_extract R idx).
+Proof.
+  apply decide_by. unfold guard_ktensor_extract, pre_ktensor_extract. okb. f_equal.
+  destruct (Z.eqb_spec (zlen idx) 0), (Z.ltb_spec R (zlen idx)), (Z.leb_spec 1 (zlen idx)), (Z.leb_spec (zlen idx) R);
+    cbn; try reflexivity; try lia.
+  unfold zlen in *. lia.
+Qed.
+
+(* ---- ttensor ---- *)
+Theorem ttensor_ctor_decides core ms : guard_ttensor_ctor core ms = decide (pre_ttensor_ctor core ms).
+Proof.
+  apply decide_by. unfold guard_ttensor_ctor, pre_ttensor_ctor. okb. rewrite forallb_is_ok_chk.
+  now rewrite (Z.eqb_sym (ndim core)).
+Qed.
+
+(* ---- sptenmat (A-44) ---- *)
+Definition sptenmat_ctor_stmt : Prop :=
+  forall mr mc rd cd ts, guard_sptenmat_ctor mr mc rd cd ts = decide (pre_sptenmat_ctor mr mc rd cd ts).
+Theorem sptenmat_ctor_refuted : ~ sptenmat_ctor_stmt.
+Proof. intros H. specialize (H 2 1 [0] [1] [2; 2]). vm_compute in H. discriminate. Qed.
+Theorem sptenmat_ctor_partial mr mc rd cd ts :
+  mr <> zprod (pickz ts rd) -> mc <> zprod (pickz ts cd) ->
+  guard_sptenmat_ctor mr mc rd cd ts = decide (pre_sptenmat_ctor mr mc rd cd ts).
+Proof.
+  intros Hr Hc. apply decide_by. unfold guard_sptenmat_ctor, pre_sptenmat_ctor. okb.
+  rewrite sorted_perm_bool by (unfold ndim, zlen; lia).
+  replace ((zlen (rd ++ cd) =? ndim ts) && is_permb (ndim ts) (rd ++ cd)) with (is_permb (ndim ts) (rd ++ cd))
+    by (unfold is_permb; now rewrite andb_assoc, andb_diag).
+  rewrite <- andb_assoc. f_equal.
+  destruct (Z.leb_spec mr (zprod (pickz ts rd))), (Z.ltb_spec mr (zprod (pickz ts rd))),
+           (Z.leb_spec mc (zprod (pickz ts cd))), (Z.ltb_spec mc (zprod (pickz ts cd))); cbn; try reflexivity; lia.
+Qed.
+
+(* ---- tenmat / sumtensor / khatrirao / import_data ---- *)
+Theorem tenmat_mul_decides a b : guard_tenmat_mul a b = decide (pre_tenmat_mul a b).
+Proof. reflexivity. Qed.
+Theorem all_same_shape_decides l : guard_all_same_shape l = decide (pre_all_same_shape l).
+Proof. destruct l; reflexivity. Qed.
+Theorem khatrirao_decides ms : guard_khatrirao ms = decide (pre_khatrirao ms).
+Proof. reflexivity. Qed.
+Theorem import_decides t n k : guard_import t n k = decide (pre_import t n k).
+Proof. apply decide_by. unfold guard_import, pre_import. okb. now rewrite (Z.eqb_sym k). Qed.
+
+(* ======================================================================================== *)
+(* mode selection through the GENERATED tt_dimscheck (A-42) and its callers ttv / ttm         *)
+(* ======================================================================================== *)
+(* what the docstring demands of an explicit mode list *)
+Definition dimscheck_stmt : Prop :=
+  forall N M d, modes_ok N d = false -> tt_dimscheck N M (Some d) None = Err.
+Theorem dimscheck_refuted : ~ dimscheck_stmt.
+Proof. intros H. specialize (H 2 (Some 2) [1; 1] eq_refl). vm_compute in H. discriminate. Qed.
+Theorem dimscheck_accepts_out_of_range : tt_dimscheck 2 None (Some [5]) None = Ok ([5], None).
+Proof. reflexivity. Qed.
+
+Lemma is_err_ttv_of_dimscheck s vlens dims excl :
+  tt_dimscheck (ndim s) (Some (zlen vlens)) dims excl = Err -> guard_tensor_ttv s vlens dims excl = Err.
+Proof. unfold guard_tensor_ttv. now intros ->. Qed.
+Lemma is_err_ttm_of_dimscheck s ms dims excl tr :
+  tt_dimscheck (ndim s) (Some (zlen ms)) dims excl = Err -> guard_tensor_ttm s ms dims excl tr = Err.
+Proof. unfold guard_tensor_ttm. now intros ->. Qed.
+
+Theorem tensor_ttv_rejects_both s vlens d e : guard_tensor_ttv s vlens (Some d) (Some e) = Err.
+Proof. apply is_err_ttv_of_dimscheck, dimscheck_rejects_both. Qed.
+Theorem tensor_ttv_rejects_negative s vlens d x : In x d -> x < 0 -> guard_tensor_ttv s vlens (Some d) None = Err.
+Proof. intros. eapply is_err_ttv_of_dimscheck, dimscheck_rejects_negative; eauto. Qed.
+Theorem tensor_ttv_rejects_exclude_range s vlens e x :
+  In x e -> ~ (0 <= x < ndim s) -> guard_tensor_ttv s vlens None (Some e) = Err.
+Proof. intros. eapply is_err_ttv_of_dimscheck, dimscheck_rejects_exclude_range; eauto. Qed.
+Theorem tensor_ttv_rejects_count s vlens d : (forall x, In x d -> 0 <= x) ->
+  (zlen vlens > ndim s \/ (zlen vlens <> ndim s /\ zlen vlens <> zlen d)) -> guard_tensor_ttv s vlens (Some d) None = Err.
+Proof. intros. apply is_err_ttv_of_dimscheck, dimscheck_rejects_count; auto. Qed.
+
+Theorem tensor_ttm_rejects_both s ms d e tr : guard_tensor_ttm s ms (Some d) (Some e) tr = Err.
+Proof. apply is_err_ttm_of_dimscheck, dimscheck_rejects_both. Qed.
+Theorem tensor_ttm_rejects_negative s ms d x tr : In x d -> x < 0 -> guard_tensor_ttm s ms (Some d) None tr = Err.
+Proof. intros. eapply is_err_ttm_of_dimscheck, dimscheck_rejects_negative; eauto. Qed.
+Theorem tensor_ttm_rejects_count s ms d tr : (forall x, In x d -> 0 <= x) ->
+  (zlen ms > ndim s \/ (zlen ms <> ndim s /\ zlen ms <> zlen d)) -> guard_tensor_ttm s ms (Some d) None tr = Err.
+Proof. intros. apply is_err_ttm_of_dimscheck, dimscheck_rejects_count; auto. Qed.
+
+Definition tensor_ttv_stmt : Prop :=
+  forall s vlens dims excl, guard_tensor_ttv s vlens dims excl = decide (pre_tensor_ttv s vlens dims excl).
+Theorem tensor_ttv_refuted : ~ tensor_ttv_stmt.
+Proof. intros H. specialize (H [1] [1] (Some [0; 0]) None). vm_compute in H. discriminate. Qed.
+Definition tensor_ttm_stmt : Prop :=
+  forall s ms dims excl tr, guard_tensor_ttm s ms dims excl tr = decide (pre_tensor_ttm s ms dims excl tr).
+Theorem tensor_ttm_refuted : ~ tensor_ttm_stmt.
+Proof. intros H. specialize (H [2; 3] [(2, 2); (2, 2)] (Some [0; 0]) None false). vm_compute in H. discriminate. Qed.
